@@ -20,4 +20,5 @@ fn syscmd_storage_take_insert()
     let again = st.take();
     assert!(again.is_some());
     std::mem::forget(again); std::mem::forget(st);
+    kani::cover!(true, "end of harness reached");
 }
